@@ -682,6 +682,8 @@ pub fn eval(expr: Node) -> Result<Number, Box<dyn error::Error>> {
             let mut result = 0.0;
             let mut scaled = 0.0;
             let len = args.len() as f64;
+            // a power of two not above 1 / len: scaling by it is exact and the scaled sum cannot overflow
+            let scale = (2.0f64).powi(-(len.max(1.0).log2().ceil() as i32));
             for arg in <Vec<Node> as Clone>::clone(&args).into_iter() {
                 #[cfg(feature = "verif_hooks")]
                 crate::verif_hooks::tick(crate::verif_hooks::Point::EvalLoop);
@@ -691,11 +693,12 @@ pub fn eval(expr: Node) -> Result<Number, Box<dyn error::Error>> {
                     Number::Float(x) => x,
                 };
                 result += sub_expr;
-                scaled += sub_expr / len;
+                scaled += sub_expr * scale;
             }
             if result.is_infinite() && scaled.is_finite() {
-                // the sum overflows although the mean does not (avg(1e308, 1e308))
-                return Ok(Number::from(scaled));
+                // the sum overflows although the mean does not (avg(1e308, 1e308)): the mean of the scaled terms,
+                // which is still right when it is f64::MAX itself
+                return Ok(Number::from(scaled / len / scale));
             }
             Ok(Number::from(result / len))
         }
